@@ -65,8 +65,22 @@ type doneRec struct {
 const (
 	maxViolPerClass = 40
 	maxOutcomes     = 1 << 20
-	caseWatchdog    = 90 * time.Second
 )
+
+// caseWatchdog: how long one real execution may show no sign of life before the worker reports a
+// hang. Generous on purpose: the largest single executions (66 000-term programs) take ~10 s on an
+// idle machine and have been seen to exceed 90 s on a heavily loaded one.
+var caseWatchdog = time.Duration(envIntW("VERIF_WATCHDOG_S", 300)) * time.Second
+
+func envIntW(name string, def int) int {
+	if s := os.Getenv(name); s != "" {
+		var v int
+		if _, err := fmt.Sscan(s, &v); err == nil && v > 0 {
+			return v
+		}
+	}
+	return def
+}
 
 // watchdog state: unix nano of the start of the current case (or of its last heartbeat), 0 = idle
 var started int64
